@@ -52,11 +52,14 @@ def setup_env():
     os.environ["TSDATE_ENABLE_NUMBA_CACHE"] = "1"
     os.environ["NUMBA_CACHE_DIR"] = str(d)
     os.environ.setdefault("TSDATE_VERIF", "1")
-    # keep at most 6 fingerprints (seeded-change runs create new ones)
+    # prune old fingerprints (seeded-change runs create new ones): only directories untouched for 12 hours, and
+    # never the one in use; pruning by count evicted caches that concurrent runs were still using
     try:
-        olds = sorted((x for x in base.iterdir() if x.is_dir() and x != d), key=lambda x: x.stat().st_mtime)
-        for x in olds[:-5]:
-            shutil.rmtree(x, ignore_errors=True)
+        now = time.time()
+        for x in base.iterdir():
+            if x.is_dir() and x != d and now - x.stat().st_mtime > 12 * 3600:
+                shutil.rmtree(x, ignore_errors=True)
+        os.utime(d, None)
     except OSError:
         pass
     if str(REPO) not in sys.path:
